@@ -4,7 +4,7 @@
    characters to the right -- the row-level core of the quote law. *)
 From RecordUpdate Require Import RecordUpdate.
 From MD Require Import Base.Py Base.Str Base.Opt Model.Token Model.Utils Model.StateBlock Model.Helpers
-     Model.Block Lemmas.StrLemmas.
+     Model.Block Lemmas.StrLemmas Lemmas.BlockLemmas.
 From Coq Require Import ZifyBool.
 
 Local Arguments Z.eqb : simpl never.
@@ -65,7 +65,8 @@ Theorem bq_strip_prefix src pos0 maximum sc bs k :
     Ok (mkBq (pos0 + 2) (Z.of_nat k) (Z.of_nat k) (bs + sc + 2) (maximum <=? pos0 + 2 + Z.of_nat k)).
 Proof.
   intros Hp H1 Hs Hstop Hm Hl. unfold bq_strip.
-  rewrite (char_at_nth _ _ _ ltac:(lia) H1). cbv iota beta.
+  assert (Hp1 : 0 <= pos0 + 1) by lia.
+  rewrite (char_at_nth src (pos0 + 1) 32 Hp1 H1). cbv iota beta.
   replace (pos0 + 1 + 1) with (pos0 + 2) by lia.
   rewrite (bq_blanks_spaces k (S (length src)) src (pos0 + 2) maximum (sc + 1 + 1) bs false); try lia; try assumption.
   - cbn [bind]. f_equal. f_equal; lia.
@@ -84,14 +85,54 @@ Proof.
     rewrite IH. f_equal; lia.
 Qed.
 
-(* scanning  blank^k ++ [10]  or  blank^k ++ c :: ...  from line start records indentation k twice *)
+Lemma len_repeat_z {A} (x : A) k : len (repeat_z x k) = Z.of_nat k.
+Proof. unfold len. induction k as [|k IH]; cbn [repeat_z length]; lia. Qed.
+
+(* scanning  blank^k ++ [10]  from line start records indentation k twice *)
 Theorem scan_blank_line k n bM eM tS sC start pos :
   scan_loop n (mkScan bM eM tS sC false start 0 0) pos (repeat_z 32 k ++ [10])
   = mkScan (start :: bM) (pos + Z.of_nat k :: eM) (Z.of_nat k :: tS) (Z.of_nat k :: sC) false (pos + Z.of_nat k + 1) 0 0.
 Proof.
-  rewrite scan_loop_app_z. rewrite scan_spaces. cbn [scan_loop].
+  rewrite scan_loop_app. rewrite scan_spaces. cbn [scan_loop].
   unfold scan_step. cbn [sc_found negb andb]. change (is_space 10) with false. cbv iota.
   change (10 =? 10) with true. cbn [orb]. cbv iota.
   cbn [sc_bM sc_eM sc_tS sc_sC sc_start sc_indent sc_offset].
   rewrite !Z.add_0_l. rewrite len_repeat_z. reflexivity.
+Qed.
+
+(* inside a line (found = true) characters other than LF, before the last position, change nothing *)
+Lemma scan_inside : forall body n bM eM tS sC start indent offset pos,
+  (forall x, In x body -> x <> 10) -> pos + len body <= n - 1 ->
+  scan_loop n (mkScan bM eM tS sC true start indent offset) pos body
+  = mkScan bM eM tS sC true start indent offset.
+Proof.
+  induction body as [|c body IH]; intros n bM eM tS sC start indent offset pos Hno Hn; cbn [scan_loop]; [reflexivity|].
+  assert (Hc : c <> 10) by (apply Hno; left; reflexivity).
+  assert (Hl : len (c :: body) = 1 + len body) by (unfold len; cbn [length]; lia).
+  unfold scan_step at 1. cbn [sc_found negb andb]. cbv iota.
+  assert (E1 : (c =? 10) = false) by lia. assert (E2 : (pos =? n - 1) = false) by (unfold len in *; lia).
+  rewrite E1, E2. cbn [orb]. cbv iota. cbn [sc_bM sc_eM sc_tS sc_sC sc_start sc_indent sc_offset].
+  apply IH; [intros x Hx; apply Hno; right; exact Hx | lia].
+Qed.
+
+(* a text line  blank^k c body LF  scanned from line start: begins at [start], ends at the LF,
+   first non-blank after k characters, indentation k *)
+Theorem scan_text_line k c body n bM eM tS sC start pos :
+  is_space c = false -> c <> 10 -> (forall x, In x body -> x <> 10) ->
+  pos + Z.of_nat k + 1 + len body <= n - 1 ->
+  scan_loop n (mkScan bM eM tS sC false start 0 0) pos (repeat_z 32 k ++ c :: body ++ [10])
+  = mkScan (start :: bM) (pos + Z.of_nat k + 1 + len body :: eM) (Z.of_nat k :: tS) (Z.of_nat k :: sC)
+           false (pos + Z.of_nat k + 1 + len body + 1) 0 0.
+Proof.
+  intros Hs Hc Hno Hn. rewrite scan_loop_app, scan_spaces, len_repeat_z. rewrite !Z.add_0_l.
+  cbn [scan_loop]. unfold scan_step at 1. cbn [sc_found negb andb]. rewrite Hs. cbv iota.
+  assert (E1 : (c =? 10) = false) by lia.
+  assert (E2 : (pos + Z.of_nat k =? n - 1) = false) by (unfold len in *; lia).
+  rewrite E1, E2. cbn [orb]. cbv iota. cbn [sc_bM sc_eM sc_tS sc_sC sc_start sc_indent sc_offset].
+  rewrite scan_loop_app. rewrite scan_inside by (try assumption; lia).
+  cbn [scan_loop]. unfold scan_step. cbn [sc_found negb andb]. cbv iota.
+  change (10 =? 10) with true. cbn [orb]. cbv iota.
+  cbn [sc_bM sc_eM sc_tS sc_sC sc_start sc_indent sc_offset].
+  replace (pos + Z.of_nat k + 1 + len body) with (pos + Z.of_nat k + 1 + len body) by reflexivity.
+  f_equal.
 Qed.
